@@ -200,8 +200,15 @@ def r_pair(A, ctx, scope, rule="R-PAIR"):
                     # copies that are not the iterate of this function (current_w = w.copy())
                     defs = [d for d in ast.walk(f.node) if isinstance(d, ast.Assign)
                             and isinstance(d.targets[0], ast.Name) and d.targets[0].id == wname]
-                    if defs and all(isinstance(d.value, ast.Call) and isinstance(d.value.func, ast.Attribute)
-                                    and d.value.func.attr == "copy" for d in defs):
+                    def _is_copy(d):
+                        return isinstance(d.value, ast.Call) and isinstance(d.value.func, ast.Attribute) \
+                            and d.value.func.attr == "copy"
+
+                    def _self_slice(d):
+                        return isinstance(d.value, ast.Subscript) and isinstance(d.value.value, ast.Name) \
+                            and d.value.value.id == wname
+                    if defs and _is_copy(min(defs, key=lambda d: d.lineno)) \
+                            and all(_is_copy(d) or _self_slice(d) for d in defs):
                         continue
                     if defs and all(isinstance(d.value, ast.Call)
                                     and ast.unparse(d.value.func) in ("np.zeros", "np.zeros_like")
@@ -258,7 +265,52 @@ def r_pair(A, ctx, scope, rule="R-PAIR"):
                         if found:
                             break
                     key = f"{f.fq}::{norm_src(st)[:80]}"
-                    if not found:
+                    # path sensitivity: the update cannot be skipped except by a test that
+                    # establishes new == old for the whole stored block
+                    skip_what = None
+                    if found and sign_ok:
+                        cfg = cfg_of(f)
+                        snode = cfg.node_of(st)
+                        if snode is not None and cfg.nodes[snode].loops:
+                            header = cfg.nodes[snode].loops[-1]
+                            unodes, inner_headers, nc_edges = set(), set(), set()
+                            for nd in cfg.stmts():
+                                if nd.id == snode or not cfg.dominated_by(nd.id, snode):
+                                    continue
+                                root = nd.ast.iter if nd.kind == "for" else nd.ast
+                                if nd.kind == "stmt":
+                                    mm = flow.stmt_mutates(f, root)
+                                    if mm & accs:
+                                        unodes.add(nd.id)
+                                        for h in nd.loops:
+                                            if h not in cfg.nodes[snode].loops:
+                                                inner_headers.add(h)
+                                if nd.kind == "test":
+                                    tn = names_in(root)
+                                    rel = (wname in tn and (tn & olds)) or bool(tn & set(diffs))
+                                    if rel:
+                                        for sx in cfg.succ[nd.id]:
+                                            nc_edges.add(sx)
+                                        # the guard must look at the whole stored block
+                                        for sub in ast.walk(root):
+                                            if isinstance(sub, ast.Subscript) and isinstance(sub.value, ast.Name) \
+                                                    and sub.value.id == wname:
+                                                tparts = sl.elts if isinstance(sl, ast.Tuple) else [sl]
+                                                gparts = sub.slice.elts if isinstance(sub.slice, ast.Tuple) else [sub.slice]
+                                                for tp, gp in zip(tparts, gparts):
+                                                    if isinstance(tp, ast.Slice) and isinstance(gp, ast.Constant):
+                                                        skip_what = (f"the no-change guard `{norm_src(root)[:60]}` looks "
+                                                                     f"only at part of the block stored by `{norm_src(tgt)}`: "
+                                                                     "when that part is unchanged the model fit is not "
+                                                                     "updated although other entries moved")
+                            avoid = unodes | inner_headers | nc_edges
+                            if skip_what is None and cfg.paths_exist(snode, header, avoiding=avoid):
+                                skip_what = (f"after `{norm_src(st)[:60]}` the paired update of {sorted(accs)} can "
+                                             "be skipped on a path that does not establish new == old "
+                                             "(early continue / return): coefficients and model fit diverge")
+                    if skip_what is not None:
+                        ctx.ob(rule, key, False, what=skip_what, loc=loc(f, st))
+                    elif not found:
                         ctx.ob(rule, key, False,
                                what=f"`{norm_src(st)[:70]}` changes the iterate but no "
                                     f"following statement adds (new - old) * column into "
@@ -350,14 +402,14 @@ def r_path(A, ctx, scope, rule="R-PATH"):
                           for t in (s_.targets[0].elts if isinstance(s_.targets[0], ast.Tuple)
                                     else [s_.targets[0]])
                           if isinstance(t, ast.Subscript) and isinstance(t.value, ast.Name)}
-                if not (names_in(v) & stored):
-                    continue
+                from_results = bool(names_in(v) & stored)
                 n += 1
                 is_copy = ".copy()" in src or (isinstance(v, ast.IfExp) and ".copy()" in src)
                 ctx.ob(rule, f"{f.fq}::start-copy::{norm_src(a)[:80]}", is_copy,
-                       what=f"warm start `{norm_src(a)[:70]}` aliases an array that outlives "
-                            "the solve (the result matrix or the caller's array): the "
-                            "in-place solver then overwrites it", loc=loc(f, a))
+                       what=f"warm start `{norm_src(a)[:70]}` aliases "
+                            + ("the result matrix" if from_results else "the caller's start array")
+                            + ": the in-place solver then overwrites it (path() is not pure: a "
+                            "second identical call starts from the previous solution)", loc=loc(f, a))
         # (3) model fit definitions
         if isinstance(xarg, ast.Name):
             for d in sorted(x for x in rd.get(cnode, {}).get(xarg.id, ()) if x >= 0):
